@@ -88,14 +88,12 @@ def rawGlobChars : Str → Bool
 
 /-- `x*` with `x` a non-empty run of non-glob characters: read back as `TERM_PREFIX` -/
 def prefixShape (w : Str) : Bool :=
-  let x := w.takeWhile (fun c => !isGlobChar c)
-  !x.isEmpty && w.drop x.length == ['*']
+  !(w.takeWhile (fun c => !isGlobChar c)).isEmpty && w.dropWhile (fun c => !isGlobChar c) == ['*']
 
 /-- the first glob character of `w` is `?` and is not the first character: at the start of a
     query the grammar's `multiterm` takes the part before it -/
 def qmarkAfterPlain (w : Str) : Bool :=
-  let x := w.takeWhile (fun c => !isGlobChar c)
-  !x.isEmpty && (w.drop x.length).head? == some '?'
+  !(w.takeWhile (fun c => !isGlobChar c)).isEmpty && (w.dropWhile (fun c => !isGlobChar c)).head? == some '?'
 
 /-- starts like a `NUM_VALUE` once printed by `lucene_escape` (`-` is printed `\-`) -/
 def numStart (s : Str) : Bool :=
